@@ -170,4 +170,28 @@ theorem scan_fragment (pre frag : Array Char) (lines : Array Nat) (p1 p2 : Profi
   refine ⟨shift 0 l, h1, ?_, h3⟩
   rw [h2]; simp [shift]
 
+/-! ### reading again after `goback` -/
+
+theorem goback_rest (s0 s : Scanner) (hsrc : s.src = s0.src) :
+    (s.goback s0.preback).rest = s0.rest ∧ (s.goback s0.preback).semi = s0.semi ∧
+      (s.goback s0.preback).pos = s0.pos := by
+  refine ⟨?_, rfl, rfl⟩
+  simp [Scanner.rest, Scanner.goback, Scanner.preback, hsrc]
+
+/-- **what is read again after backtracking is what was read the first time**: going back to a mark saved
+    by `preback` — from any later state over the same source, whatever was scanned, pushed into the line
+    table or failed in between — the next step is the step taken from the marked state -/
+theorem goback_same_step (s0 s : Scanner) (hsrc : s.src = s0.src) :
+    viewOf (s.goback s0.preback) = viewOf s0 := by
+  obtain ⟨hr, hm, _⟩ := goback_rest s0 s hsrc
+  rw [view_eq, view_eq, hr, hm]
+
+/-- … and so is the whole remaining token sequence, at the same offsets -/
+theorem goback_same_tokens (s0 s : Scanner) (hsrc : s.src = s0.src) :
+    (scanTokens (s.goback s0.preback)).toks = (scanTokens s0).toks ∧
+      (scanTokens (s.goback s0.preback)).err.isSome = (scanTokens s0).err.isSome := by
+  obtain ⟨hr, hm, hp⟩ := goback_rest s0 s hsrc
+  obtain ⟨l, h1, h2, h3⟩ := scan_embedded _ _ hr hm
+  exact ⟨by rw [h1, h2, hp], h3⟩
+
 end Gosyn.Props.C15b
